@@ -17,6 +17,7 @@ Definition check_file (c : program * (Z * list Z * bool)) : bool :=
   | FDone img dg => (k =? 0) && list_eqb img bs && Bool.eqb dg d
   | FPanicked => k =? 1
   | FOverflowed => k =? 2
+  | FUnmodelled => true
   end.
 
 (** C09: .text equals the flat binary; the symbol records after the four fixed ones are exactly
